@@ -48,6 +48,15 @@ claimed = {
  "C02": ("writer index typestate (verified summaries) + seek decision tables", "DESIGN §3.1, §3.3, §4 C02",
    "No index block is dropped unflushed and no pending index entry survives a section on any path of the writer; index entries record the block's start offset; in-block scan, restart predicate, linear block skip and index descent agree with their specification for all valuations; reads from a table iterator roll over blocks.",
    "necessary conditions only: equality of seek+scan with the scan suffix for a given table is not decided (offset/padding arithmetic)"),
+ "C01": ("writer gates, deletion preservation and restart cap by path simulation (codec sequences: see C14)", "DESIGN §3.3, §3.4, §4 C01",
+   "A deletion record reaches the block writer as a deletion; IsDeletion holds exactly when every payload field is empty; refs are written only inside the declared update-index limits and keys strictly ascending; restart points are recorded only while the 16-bit count has room and only for uncompressed keys; update-index delta agreement (DELTA under C11).",
+   "round-trip equality of a given record set (block boundary, padding, varint and zlib arithmetic) is not decided"),
+ "C14": ("layout and constants vs a frozen table transcribed from the format specification", "DESIGN §3.4, §4 C14, Appendix A.3",
+   "Block type bytes, magic, header/footer sizes and field layout, footer field order and wiring, object-id bits, CRC kind, restart/length widths, hash ids and sizes, restart cap and file naming extracted from the Go sources equal the specification table; size identities between structs and size functions hold; writer and reader serialise the same struct types.",
+   "that a particular emitted file parses; index and object-index contents; padding lengths"),
+ "C15": ("Go layout table vs the same table extracted from the C sources (clang AST / preprocessor, parsed only)", "DESIGN §3.4, §4 C15",
+   "About twenty constants and layouts (block types, sizes, header layout, footer order on the writing and the parsing side, object-id bits, hash ids, restart cap, default block size, stack file naming) agree entry by entry between c/ and the Go package; the Go list reader tolerates the C list layout.",
+   "behavioural equivalence of the implementations is not decided; narrow claim"),
 }
 not_applicable_reason = {
  "C17": "quantifies over numeric size vectors and workload sizes (size classes, cumulative byte sums, 2*log2 N depth, N*log2 N cost); no clause is decidable from the shape of the code, and evaluating the chooser on enumerated vectors would be a runtime test (DESIGN §4 C17)",
